@@ -120,6 +120,14 @@ FLOORS = {
                               "source_unknown_divisions": 5000, "source_with_empty_partitions": 2000},
                  "sets": {"target_feature": 13}, "max_skipped_fraction": 0.15},
 }
+# parameter audit + sibling facet: about 45 percent of the smallest count of the five quick seeds on the tree with the C44
+# patches; thorough = quick x 15 (the random stream is 16.7 times longer)
+FLOORS["quick"]["counters"].update({'npartitions_callable': 57, 'force_with_npartitions_or_size': 45, 'divisions_as_tuple': 93, 'divisions_via_function': 66, 'divisions_float_on_int_index': 15, 'pandas_object_divisions': 46, 'freq_calendar_offset': 20, 'freq_timedelta': 6, 'from_pandas_sort_unsorted': 27, 'source_after_filter': 127, 'post_filter': 48, 'post_projection': 50, 'after_error_followup': 73, 'sibling_partition_size': 146, 'siblings_built': 900, 'siblings_computed_together': 415, 'siblings_with_different_values': 330})
+FLOORS["thorough"]["counters"].update({'npartitions_callable': 855, 'force_with_npartitions_or_size': 675, 'divisions_as_tuple': 1395, 'divisions_via_function': 990, 'divisions_float_on_int_index': 225, 'pandas_object_divisions': 690, 'freq_calendar_offset': 300, 'freq_timedelta': 90, 'from_pandas_sort_unsorted': 405, 'source_after_filter': 1905, 'post_filter': 720, 'post_projection': 750, 'after_error_followup': 1095, 'sibling_partition_size': 2190, 'siblings_built': 13500, 'siblings_computed_together': 6225, 'siblings_with_different_values': 4950})
+FLOORS["quick"]["counters"].update({"divisions_force": 150, "divisions_outer_changed": 140, "expected_error": 75})
+FLOORS["thorough"]["counters"].update({"divisions_force": 2500, "divisions_outer_changed": 2300, "expected_error": 1200})
+FLOORS["quick"]["sets"]["target_feature"] = 16
+FLOORS["thorough"]["sets"]["target_feature"] = 17
 EXHAUSTIVE_SPACE = {
     "quick": "6-row frames with index (10..60 step 10) and (0..5): all 32 compositions into non-empty source partitions x "
              "{known, unknown divisions} x repartition(npartitions=1..8); known sparse sources x all 16 target division "
